@@ -37,15 +37,32 @@ Dups(o, id) == { p \in Assertions(o, id) \X Assertions(o, id) :
 \* lookup that preceded another ceremony's update of the same credential (the read-modify-write spans two store calls).
 Targets(o, id) == { i \in 1..N(o) : o.cers[i].op = "ga" /\ \E k \in 1..Len(o.all) :
                       o.all[k].cer = i /\ o.all[k].ev = "Store" /\ o.all[k].d.call = "update" /\ o.all[k].d.cred.id = id }
-StaleUpdate(o, id) ==
+StaleShape(o, id) ==
     \E i \in Targets(o, id) : \E j \in Targets(o, id) :
         i # j /\ Pos(o, j, "find") > 0 /\ Pos(o, j, "find") < Pos(o, i, "update") /\ Pos(o, i, "update") < Pos(o, j, "update")
+\* The finding is about increments computed from a stale read, nothing else: the exemption applies only to histories
+\* in which every counter write of every ceremony is "the value its own lookup saw, plus one".
+CtrInc(c) == IF c.lo < 65535 THEN [hi |-> c.hi, lo |-> c.lo + 1] ELSE [hi |-> c.hi + 1, lo |-> 0]
+SeenBy(o, j, id) == LET k == Pos(o, j, "find") IN Get(o.all[k].d.snap, id).ctr
+OnlyIncrements(o, id) ==
+    \A k \in 1..Len(o.all) :
+        (o.all[k].ev = "Store" /\ o.all[k].d.call = "update" /\ o.all[k].d.cred.id = id) =>
+            LET j == o.all[k].cer IN
+            /\ Pos(o, j, "find") > 0 /\ Has(o.all[Pos(o, j, "find")].d.snap, id)
+            /\ o.all[k].d.cred.ctr = CtrInc(SeenBy(o, j, id))
+StaleUpdate(o, id) == StaleShape(o, id) /\ OnlyIncrements(o, id)
 
 CredIds(o) == { o.snap0[k].id : k \in 1..Len(o.snap0) }
+\* ceremonies whose counter update the store accepted although they did not end in a successful assertion (a later
+\* step failed): their increment legitimately stays (C07), so the stored value may exceed the largest reported one
+SpentOn(o, id) == { i \in 1..N(o) : /\ o.cers[i].op = "ga" /\ ~Ok(o, i)
+                                    /\ \E k \in 1..Len(o.all) : /\ o.all[k].cer = i /\ o.all[k].ev = "Store" /\ o.all[k].d.call = "update"
+                                                                /\ o.all[k].d.ok /\ o.all[k].d.cred.id = id }
 LargestWrong(o, id) ==
     /\ Assertions(o, id) # {} /\ Has(o.snapF, id)
     /\ \/ \E i \in Assertions(o, id) : CtrLess(Get(o.snapF, id).ctr, EndOf(o, i)[1].d.ctr)
-       \/ \A i \in Assertions(o, id) : EndOf(o, i)[1].d.ctr # Get(o.snapF, id).ctr
+       \/ /\ SpentOn(o, id) = {}
+          /\ \A i \in Assertions(o, id) : EndOf(o, i)[1].d.ctr # Get(o.snapF, id).ctr
 
 \* C05 under concurrency.  The store API has no delete, so a credential held when the ceremonies began is held
 \* throughout: a registration whose non-empty exclude list names one held for its RP must be refused whatever the
